@@ -96,6 +96,13 @@ func (g *jsonGen) key() string {
 }
 
 func (g *jsonGen) num() float64 {
+	if g.t.Bool(1, 10) {
+		// both zeros, often in one document
+		if g.t.Bool(1, 2) {
+			return math.Copysign(0, -1)
+		}
+		return 0
+	}
 	if g.cfg.BigNums && g.t.Bool(1, 2) {
 		v := jsonNums[g.t.Draw(len(jsonNums))]
 		if g.t.Bool(1, 6) && v == 0 {
